@@ -261,7 +261,15 @@ pub fn dynamic(
                     Some(p) => {
                         if *via_call_return {
                             if let Some(c) = last_call_idx {
-                                need.push((Rc::clone(&b.inst_nodes[c]), Rc::clone(node), "call-return"));
+                                // (the instruction behind the call can head a function itself:
+                                // the entry node stands in between then)
+                                match entry {
+                                    Some(e) => {
+                                        need.push((Rc::clone(&b.inst_nodes[c]), Rc::clone(e), "call-return"));
+                                        need.push((Rc::clone(e), Rc::clone(node), "entry"));
+                                    }
+                                    None => need.push((Rc::clone(&b.inst_nodes[c]), Rc::clone(node), "call-return")),
+                                }
                             }
                         } else if last_was_call {
                             // call -> callee entry is not an intra-function transfer,
